@@ -259,6 +259,13 @@ func (its *PushPullHandler) commitToMongoDB() errors.OrdaError {
 	its.resPushPullPack.CheckPoint = its.currentCP
 	its.subClientDoc.UpdateAt()
 	if len(its.pushingOperations) > 0 {
+		// The datatype document written below is the commit point. If an earlier commit inserted its operations
+		// and then failed to update the document, those operations still occupy the sequence numbers that are
+		// assigned again now: remove them first, otherwise every retry fails on duplicate ids for ever.
+		firstSseq := its.currentCP.Sseq - uint64(len(its.pushingOperations)) + 1
+		if err := its.managers.Mongo.PurgeOperationsFrom(its.ctx, its.DUID, firstSseq); err != nil {
+			return errors.PushPullAbortionOfServer.New(its.ctx.L(), err.Error())
+		}
 		if err := its.managers.Mongo.InsertOperations(its.ctx, its.pushingOperations); err != nil {
 			return errors.PushPullAbortionOfServer.New(its.ctx.L(), err.Error())
 		}
@@ -285,7 +292,8 @@ func (its *PushPullHandler) pullOperations() errors.OrdaError {
 	}
 	sseqBegin := its.gotPushPullPack.CheckPoint.Sseq + 1
 	if its.datatypeDoc.Sseq.Begin <= sseqBegin && !its.gotOption.HasSnapshotBit() {
-		opList, sseqList, err := its.managers.Mongo.GetOperations(its.ctx, its.DUID, sseqBegin, constants.InfinitySseq)
+		// only committed operations: whatever lies behind the recorded end of the log is the leftover of a failed commit
+		opList, sseqList, err := its.managers.Mongo.GetOperations(its.ctx, its.DUID, sseqBegin, its.datatypeDoc.Sseq.End)
 		if err != nil {
 			return errors.PushPullAbortionOfServer.New(its.ctx.L(), err.Error())
 		}
